@@ -439,6 +439,9 @@ func (x *FnExec) cutLoop(fr *frame, n *node, li *loopInfo) {
 		if _, ok := x.q.heaps[h]; ok {
 			before := x.heapGet(n.st, h, x.q.heaps[h])
 			x.heapHavoc(n.st, h)
+			if h == "$clock" {
+				x.q.assert(fmt.Sprintf("(>= %s %s)", n.st.heap[h], before)) // the clock only moves forward
+			}
 			// automatic frame: if every write to h inside the loop goes through an object allocated inside the loop
 			// (locals, composite literals, varargs arrays), everything allocated before the loop keeps its value
 			if strings.HasPrefix(x.q.heaps[h], "(Array Ref ") && x.loopWritesOnlyLoopAllocs(fr, li, h) {
@@ -537,6 +540,24 @@ func (x *FnExec) backEdge(fr *frame, n *node, e *edge, cond string) {
 	}
 	for p, v := range newVals {
 		env[p] = v
+	}
+	if fr.spec != nil {
+		for _, u := range fr.spec.LoopUse[li.ordinal] {
+			call, _ := u.Expr.(*ECall)
+			pf := x.eng.specs.Pure[call.Fun]
+			if pf == nil || !pf.Axiom {
+				x.errf("%s: loop %d use %q: not an axiom", funcKey(fr.fn), li.ordinal, u.Src)
+				continue
+			}
+			// evaluated at the end of the back-edge block: header phis still denote the current iteration's values
+			g, err := x.evalBool(fr, u.Expr, &evalCtx{env: n.env, st: n.outSt, old: fr.oldState, loop: li, block: n.b, at: n.b.Instrs[len(n.b.Instrs)-1]})
+			if err != nil {
+				x.errf("%s: loop %d use %q: %v", funcKey(fr.fn), li.ordinal, u.Src, err)
+				continue
+			}
+			x.q.assert(implies(cond, g))
+			x.trusted["axiom "+pf.Name+" (assumed; instantiated explicitly): "+pf.Src] = true
+		}
 	}
 	for i, c := range li.invs {
 		g, err := x.evalBool(fr, c.Expr, &evalCtx{env: env, st: n.outSt, old: fr.oldState, loop: li, block: h})
